@@ -239,7 +239,8 @@ class Parser:
         if self.statement and self.statement.count("(") == self.statement.count(")"):
             new_statements_tokens = ["ALTER ", "CREATE ", "DROP ", "SET "]
             for key in new_statements_tokens:
-                if line.upper().startswith(key):
+                # the keyword may also stand alone on its line ("CREATE\nTABLE ...")
+                if line.upper().startswith(key) or line.upper() == key.strip():
                     self.new_statement = True
         return self.new_statement
 
